@@ -125,6 +125,18 @@ impl<'a> Interpreter<'a> {
         }
     }
 
+    /// An interpreter for code that runs inside this one (a macro body
+    /// evaluated per element): it continues at this interpreter's call depth,
+    /// so a program that refers to itself through a macro still runs into
+    /// the depth limit, while the depth is released again after every element.
+    pub fn nested<'n>(&self, cel: &'n CelContext, bindings: &'n BindContext<'n>) -> Interpreter<'n> {
+        Interpreter {
+            cel: Some(cel),
+            bindings: Some(bindings),
+            depth: ScopedCounter::starting_at(self.depth.count()),
+        }
+    }
+
     pub fn add_bindings(&mut self, bindings: &'a BindContext) {
         self.bindings = Some(bindings);
     }
